@@ -55,8 +55,12 @@ func (p *Prog) upperBound(v ssa.Value, d int) (int64, bool) {
 		}
 	case *ssa.Phi:
 		var m int64
-		for _, e := range x.Edges {
+		for i, e := range x.Edges {
 			k, ok := p.upperBound(e, d+1)
+			// the edge may only be taken when a test bounds the value (if v > K { v = K })
+			if gk, gok := edgeBound(x, i, e, true); gok && (!ok || gk < k) {
+				k, ok = gk, true
+			}
 			if !ok {
 				return 0, false
 			}
@@ -184,4 +188,153 @@ func init() {
 			}
 			c.Check(n >= 1, "window-writers", "", fmt.Sprintf("%d store(s) to maxTSNOffset", n), "no store to receivePayloadQueue.maxTSNOffset found")
 		}})
+}
+
+// edgeBound: on the CFG edge by which φ takes input e, a dominating test
+// compares e with a constant; returns the implied upper (upper=true) or lower
+// bound of e on that edge.
+func edgeBound(phi *ssa.Phi, i int, e ssa.Value, upper bool) (int64, bool) {
+	pred := phi.Block().Preds[i]
+	facts := DomFacts(pred)
+	if len(pred.Instrs) > 0 {
+		if ifi, ok := pred.Instrs[len(pred.Instrs)-1].(*ssa.If); ok && pred.Succs[0] != pred.Succs[1] {
+			cc, tt := normCond(ifi.Cond, pred.Succs[0] == phi.Block())
+			facts = append(facts, condFact{cc, tt})
+		}
+	}
+	best, have := int64(0), false
+	for _, f := range facts {
+		b, ok := f.Cond.(*ssa.BinOp)
+		if !ok {
+			continue
+		}
+		op := b.Op
+		if !f.Taken {
+			op = invertOp(op)
+		}
+		var k int64
+		var isK bool
+		switch {
+		case unconv(b.X) == unconv(e):
+			k, isK = constInt(b.Y)
+		case unconv(b.Y) == unconv(e):
+			k, isK = constInt(b.X)
+			op = swapOp(op)
+		}
+		if !isK {
+			continue
+		}
+		// now: e op k
+		var bound int64
+		okB := false
+		if upper {
+			switch op {
+			case token.LEQ, token.EQL:
+				bound, okB = k, true
+			case token.LSS:
+				bound, okB = k-1, true
+			}
+			if okB && (!have || bound < best) {
+				best, have = bound, true
+			}
+		} else {
+			switch op {
+			case token.GEQ, token.EQL:
+				bound, okB = k, true
+			case token.GTR:
+				bound, okB = k+1, true
+			}
+			if okB && (!have || bound > best) {
+				best, have = bound, true
+			}
+		}
+	}
+	return best, have
+}
+
+// lowerBoundI: static lower bound of an unsigned/int value (constants, min/max
+// builtins, guarded φ, sums and products of bounded values, in-package returns).
+func (p *Prog) lowerBoundI(v ssa.Value, d int) (int64, bool) {
+	if d > 10 || v == nil {
+		return 0, false
+	}
+	if k, ok := constInt(v); ok {
+		return k, true
+	}
+	switch x := v.(type) {
+	case *ssa.Convert:
+		if isIntType(x.X.Type()) && isIntType(x.Type()) && sizeOf(x.Type()) >= sizeOf(x.X.Type()) {
+			return p.lowerBoundI(x.X, d+1)
+		}
+	case *ssa.ChangeType:
+		return p.lowerBoundI(x.X, d+1)
+	case *ssa.Phi:
+		m, first := int64(0), true
+		for i, e := range x.Edges {
+			k, ok := p.lowerBoundI(e, d+1)
+			if gk, gok := edgeBound(x, i, e, false); gok && (!ok || gk > k) {
+				k, ok = gk, true
+			}
+			if !ok {
+				if isUnsigned(e.Type()) {
+					k, ok = 0, true
+				} else {
+					return 0, false
+				}
+			}
+			if first || k < m {
+				m, first = k, false
+			}
+		}
+		return m, !first
+	case *ssa.Call:
+		if b, ok := x.Call.Value.(*ssa.Builtin); ok {
+			switch b.Name() {
+			case "max":
+				best, have := int64(0), false
+				for _, a := range x.Call.Args {
+					if k, ok := p.lowerBoundI(a, d+1); ok && (!have || k > best) {
+						best, have = k, true
+					}
+				}
+				return best, have
+			case "min":
+				m, first := int64(0), true
+				for _, a := range x.Call.Args {
+					k, ok := p.lowerBoundI(a, d+1)
+					if !ok {
+						if isUnsigned(a.Type()) {
+							k = 0
+						} else {
+							return 0, false
+						}
+					}
+					if first || k < m {
+						m, first = k, false
+					}
+				}
+				return m, !first
+			case "len":
+				return 0, true
+			}
+			return 0, false
+		}
+		if sc := x.Call.StaticCallee(); sc != nil && p.inPkg(sc) && sc.Blocks != nil && sc.Signature.Results().Len() == 1 {
+			m, first := int64(0), true
+			for _, r := range allReturns(sc) {
+				k, ok := p.lowerBoundI(retResults(r)[0], d+1)
+				if !ok {
+					return 0, false
+				}
+				if first || k < m {
+					m, first = k, false
+				}
+			}
+			return m, !first
+		}
+	}
+	if isUnsigned(v.Type()) {
+		return 0, true
+	}
+	return 0, false
 }
